@@ -332,7 +332,8 @@ def fam_mod_general(rng, n):
     for _ in range(n):
         text, info = gen_mod(rng, allow_err=rng.random() < 0.08)
         opts = gen_opts(rng, "mod", p=0.25)
-        tv = rng.choice(["", "", "pub ", "pub(crate) "])
+        tv = rng.choice(["", "", "pub ", "pub(crate) ", "pub(super) ", "pub(self) ", "pub(in crate) ", "pub(in self) ", "pub(in super) ",
+                         "pub(in super::super) ", "pub(in crate::a::b) ", "pub(in super::super::x) "])
         tn = rng.choice(TRAIT_NAMES)
         attr = ", ".join([tv + tn] + opts)
         out.append(Case("mod_general", attr, text, macro=rng.choice(["entrait", "entrait", "entrait_export"]), tags=info))
@@ -712,6 +713,10 @@ REGRESSION = [
     ("Foo, no_deps", "fn foo(a: i32,) {}"),
     ("Foo, no_deps", "fn foo(self, a: i32) {}"),
     ("Foo, no_deps", "mod m { pub fn foo(&self, a: i32) {} }"),
+    ("pub(super) Foo", "mod m { pub fn foo(d: &impl A) {} }"),
+    ("pub(self) Foo", "pub mod m { pub fn foo(d: &impl A) {} }"),
+    ("pub(in self::super) Foo", "mod m { pub fn foo(d: &impl A) {} }"),
+    ("pub(in super::super::a) Foo", "mod m { pub fn foo(d: &impl A) {} }"),
 ]
 
 
